@@ -121,7 +121,10 @@ func (e *Exec) cvToReal(c *CV) constant.Value {
 func (e *Exec) argCV(v Value) *CV {
 	ifc, ok := v.(Iface)
 	if !ok || ifc.T == nil {
-		e.fault("nil constant.Value passed to go/constant (nil pointer dereference)")
+		// the package functions switch on the dynamic type and end in panic(fmt.Sprintf(…)) for a
+		// nil Value: a message panic, not a run-time fault (Val, ToInt, ToFloat, ToComplex accept nil
+		// and are special-cased by their intrinsics)
+		e.cvPanic("<nil> is not a valid constant operand")
 	}
 	switch x := ifc.V.(type) {
 	case *CV:
@@ -792,7 +795,14 @@ func init() {
 		f, exact := constant.Float32Val(e.cvToReal(x))
 		return Tuple{FloatV(f), e.tb.Bool(exact)}
 	})
+	isNil := func(v Value) bool {
+		ifc, ok := v.(Iface)
+		return !ok || ifc.T == nil
+	}
 	reg("Val", func(e *Exec, a []Value) Value {
+		if isNil(a[0]) {
+			return Iface{}
+		}
 		x := e.argCV(a[0])
 		tb := e.tb
 		switch x.K {
@@ -820,9 +830,22 @@ func init() {
 		}
 		return Iface{}
 	})
-	reg("ToInt", func(e *Exec, a []Value) Value { return e.cvIface(e.cvToInt(e.argCV(a[0]))) })
-	reg("ToFloat", func(e *Exec, a []Value) Value { return e.cvIface(e.cvToFloat(e.argCV(a[0]))) })
+	reg("ToInt", func(e *Exec, a []Value) Value {
+		if isNil(a[0]) {
+			return e.cvIface(e.cvUnknown())
+		}
+		return e.cvIface(e.cvToInt(e.argCV(a[0])))
+	})
+	reg("ToFloat", func(e *Exec, a []Value) Value {
+		if isNil(a[0]) {
+			return e.cvIface(e.cvUnknown())
+		}
+		return e.cvIface(e.cvToFloat(e.argCV(a[0])))
+	})
 	reg("ToComplex", func(e *Exec, a []Value) Value {
+		if isNil(a[0]) {
+			return e.cvIface(e.cvUnknown())
+		}
 		x := e.argCV(a[0])
 		switch x.K {
 		case constant.Int, constant.Float:
